@@ -483,7 +483,7 @@ func runC12(c *Ctx) {
 				if !okL {
 					fr, _ = asFieldAddr(base) // a sync.WaitGroup held by value
 				}
-				if !isFreshBase(fr.Base) {
+				if !isFreshBaseU(fr.Base, 0) {
 					o.Fail(in.Pos(), "Add in the constructor is not on the freshly created listener")
 				}
 				for _, g := range findInstrs(f, func(x ssa.Instruction) bool { _, ok := x.(*ssa.Go); return ok }) {
@@ -979,6 +979,46 @@ func runC11(c *Ctx) {
 					}
 					kk, isC := constInt(mk.Len)
 					if !isC {
+						// a slab cut into equal shares: every use is a slice data[lo : lo+K] of constant width K
+						slab := true
+						var widths []int64
+						var shares []*ssa.Slice
+						if refs := mk.Referrers(); refs != nil {
+							for _, rf := range *refs {
+								sl, isSl := rf.(*ssa.Slice)
+								if _, isDbg := rf.(*ssa.DebugRef); isDbg {
+									continue
+								}
+								if !isSl || sl.X != ssa.Value(mk) || sl.High == nil {
+									slab = false
+									continue
+								}
+								lo := linConst(0)
+								if sl.Low != nil {
+									lo = linOf(sl.Low, nil)
+								}
+								w := linOf(sl.High, nil).add(lo, -1)
+								if !w.OK || len(w.Coef) != 0 {
+									slab = false
+									continue
+								}
+								widths = append(widths, w.K)
+								shares = append(shares, sl)
+							}
+						}
+						if slab && len(shares) > 0 {
+							for i, sl := range shares {
+								if isPayloadBuffer(sl) {
+									ob.Site(sl.Pos(), "receive buffer of %d bytes (share of a slab) in %s", widths[i], fname(rd))
+									sizes[rd] = append(sizes[rd], widths[i])
+									all = append(all, widths[i])
+								}
+							}
+							return
+						}
+						if !isPayloadBuffer(mk) {
+							return
+						}
 						ob.Fail(in.Pos(), "a receive buffer of %s has a size that is not a constant", fname(rd))
 						return
 					}
@@ -1236,7 +1276,13 @@ func runC11(c *Ctx) {
 	nGo := 0
 	for _, e := range cg.In[r.readLoop] {
 		o.Site(e.Site.Pos(), "read loop started from %s (%s)", fname(e.From), e.Kind)
-		if e.Kind == "go" && e.From == r.Listen {
+		fromCtor := e.From == r.Listen
+		if !fromCtor && isPrivateHelper(e.From) && isIn(e.From, r.Listen) {
+			// a start helper of the constructor: called from the constructor only, once, outside loops
+			ins := cg.In[e.From]
+			fromCtor = len(ins) == 1 && ins[0].Kind == "static" && ins[0].From == r.Listen && !inLoop(ins[0].Site)
+		}
+		if e.Kind == "go" && fromCtor {
 			nGo++
 			// not inside a loop
 			if inLoop(e.Site) {
@@ -1829,4 +1875,34 @@ func derefNamed(t types.Type) string {
 		return nt.Obj().Name()
 	}
 	return t.String()
+}
+
+// isFreshBaseU: isFreshBase, also when the object reaches a private helper as an argument or comes out of a
+// private helper that allocates it.
+func isFreshBaseU(base ssa.Value, d int) bool {
+	if isFreshBase(base) {
+		return true
+	}
+	if d > 4 {
+		return false
+	}
+	r := rootOf(base)
+	if o := origin(r); o != r {
+		return isFreshBaseU(o, d+1)
+	}
+	if call, ok := r.(*ssa.Call); ok {
+		if h := helperCallee(call); h != nil && h.Signature.Results().Len() == 1 {
+			rvs := returnedValues(h, 0)
+			if len(rvs) == 0 {
+				return false
+			}
+			for _, rv := range rvs {
+				if !isFreshBaseU(rv, d+1) {
+					return false
+				}
+			}
+			return true
+		}
+	}
+	return false
 }
